@@ -195,6 +195,16 @@ func errflowFrom(P *Prog, e ssa.Value, cfg *errflowCfg, depth int) efResult {
 			if car[cellRoot(u.X)] || car[u.X] {
 				return true
 			}
+			// another load of the same field of the same base as a carrier
+			if _, isFA := u.X.(*ssa.FieldAddr); isFA {
+				for cv := range car {
+					if cu, ok := cv.(*ssa.UnOp); ok && cu.Op == token.MUL && cu != u {
+						if _, ok := cu.X.(*ssa.FieldAddr); ok && sameValue(cu, u) {
+							return true
+						}
+					}
+				}
+			}
 		}
 		return false
 	}
